@@ -584,6 +584,13 @@ async def run_steps(W: World, steps: list[dict[str, Any]], rng: random.Random | 
             raise ValueError(f"unknown step {op}")
 
 
+class Unprintable(Exception):
+    """an application error whose str() itself fails (a __str__ concatenating a str with an int attribute, say)"""
+
+    def __str__(self) -> str:
+        raise TypeError("can only concatenate str (not \"int\") to str")
+
+
 def make_exc(kind: str, tag: str) -> BaseException:
     if kind == "raise-exc":
         return BodyExc(tag)
@@ -594,6 +601,8 @@ def make_exc(kind: str, tag: str) -> BaseException:
     builtin = {"raise-keyerror": KeyError, "raise-timeout": TimeoutError, "raise-stopasync": StopAsyncIteration, "raise-lookup": LookupError, "raise-runtime": RuntimeError, "raise-assert": AssertionError}
     if kind in builtin:
         return builtin[kind](tag)
+    if kind == "raise-unprintable":
+        return Unprintable(tag)
     if kind == "raise-group":
         return ExceptionGroup(tag, [BodyExc(tag), KeyError(tag)])
     raise ValueError(kind)
